@@ -402,6 +402,14 @@ def _run(plan, ctx, oracle, seqmod, sfp, spmod, SequenceParameters, fsbox):
             for x in v:
                 out.extend(flat(x))
         return [x for x in out if isinstance(x, (list, dict)) or type(x).__name__ == "ndarray"]
+
+    def look_sites(obj):
+        """the harness's own look at the site list; a container the caller had edited and that is handed out again
+        says nothing about the object (whether results are private copies is not said by the statement)"""
+        raw = obj.get_phosphosites()
+        if any(id(x) in scribbled for x in flat(raw)):
+            raise Discard("a container the caller had edited was handed out again (whether results are private copies is not said)")
+        return [int(x) for x in raw]
     kinds_seen = [set() for _ in objs]
     last_obj = [None]
     prev_q = [None]
@@ -443,6 +451,18 @@ def _run(plan, ctx, oracle, seqmod, sfp, spmod, SequenceParameters, fsbox):
                 sites[i] = []
             else:
                 state[i]["pal"] = True
+            if m[0] != "set_HTMLColorResiduePalette":
+                # which sites a setter keeps, and in which order, is C16's subject; here the list only serves as the
+                # baseline that later read-only queries must leave alone, so it is taken from the object itself
+                try:
+                    seen = look_sites(o)
+                    if seen != sites[i]:
+                        ctx.probe("site_list_after_setter_differs_from_first_set_order_model")
+                    sites[i] = seen
+                except Discard:
+                    raise
+                except Exception:
+                    pass
             last_kind[i] = "mutator"
             ctx.log.emit("mut", o=i, name=m[0])
             ctx.count("mutators")
@@ -548,15 +568,15 @@ def _run(plan, ctx, oracle, seqmod, sfp, spmod, SequenceParameters, fsbox):
         # the query must not have changed the stored sequence or the site list
         if o.get_sequence() != seqs[i]:
             raise Violation("query_changed_object", "query_changed_sequence:" + name, "%s changed the stored sequence of object %d" % (name, i))
-        if list(o.get_phosphosites()) != sites[i]:
-            raise Violation("query_changed_object", "query_changed_sites:" + name, "%s changed the phosphosite list of object %d: %r, model %r" % (
+        if look_sites(o) != sites[i]:
+            raise Violation("query_changed_object", "query_changed_sites:" + name, "%s changed the phosphosite list of object %d: %r, before the query %r" % (
                 name, i, o.get_phosphosites(), sites[i]))
     # final look at every object: stored sequence and site list follow the model
     for i, o in enumerate(objs):
         if o.get_sequence() != seqs[i]:
             raise Violation("query_changed_object", "query_changed_sequence:end", "the stored sequence of object %d changed during the history" % i)
-        if list(o.get_phosphosites()) != sites[i]:
-            raise Violation("query_changed_object", "query_changed_sites:end", "the phosphosite list of object %d is %r at the end of the history, model %r" % (
+        if look_sites(o) != sites[i]:
+            raise Violation("query_changed_object", "query_changed_sites:end", "the phosphosite list of object %d is %r at the end of the history, after its last setter it was %r" % (
                 i, o.get_phosphosites(), sites[i]))
     ctx.count("ops", len(plan["ops"]))
 
